@@ -13,11 +13,12 @@ def c06(tier):
     for c in s2:
         jobs.append(Job("h_c12::merged_arrays", c, dict(S2), budget_s=3000, validate=30))
     jobs.append(Job("h_c12::nested_arrays", (), dict(S2), budget_s=3000, validate=20))
+    jobs.append(Job("h_c12::edit_chains", (), dict(S2), budget_s=3000, validate=30))
     return dict(
         jobs=jobs,
         bounds={"len_m": "0..%d" % n, "len_n": "0..%d" % n, "elements": "abstract atoms (JSON integers), duplicate-free per sequence, all cross-sequence equality patterns",
                 "melda level [versions per replica, symbolic ids of inserted elements]": [list(c) for c in s2],
-                "melda-level scenario": "base items=[a,b] more=[c]; each replica submits one of k versions (insert at same position, reorder, move between arrays, remove, create); exchange both ways"},
+                "edit chains": "each replica submits two array versions in a row (5 x 5 choices each, own new element) before committing; exchange; edit + commit; propagation", "melda-level scenario": "base items=[a,b] more=[c]; each replica submits one of k versions (insert at same position, reorder, move between arrays, remove, create); exchange both ways"},
         assumptions=["elements are JSON numbers (merge_arrays only uses Value equality/clone)"] + S2_ASSUME,
         note="utils::merge_arrays executed from MIR; oracle = harness h_c06::merge_pair",
     )
@@ -115,6 +116,8 @@ def c03(tier):
         jobs.append(Job("h_c03::commit_reopen", c, dict(S2), budget_s=3000, validate=30))
     # commit while array conflicts are pending (automatic resolution), then reopen: scenario shared with C12
     jobs.append(Job("h_c12::maintenance", (10, 0), dict(S2), budget_s=3000, validate=20))
+    # documents with id-only (empty) elements and anonymous sub-objects, committed and reopened (job shared with C04)
+    jobs.append(Job("h_c04::update_read", (3, 0, 1, 1), dict(S2), budget_s=3000, validate=20))
     return dict(jobs=jobs,
                 bounds={"objects per pack": "0..%d" % max(c[0] for c in combos), "symbolic string length": "0..%d" % max(c[1] for c in combos),
                         "string alphabet": "{ } [ ] , : \" \\ a (each byte symbolic); skeletons: flat object, symbolic key, nested object, array descriptor with non-ASCII literal, patch descriptor",
@@ -233,6 +236,8 @@ def c01(tier):
     jobs.append(Job("h_c02::delivery", (0, 6, 0), dict(S2), budget_s=4000, validate=20))
     jobs.append(Job("h_c18::concurrent_creations", (12 if tier != "quick" else 8,), dict(S2), budget_s=3000, validate=30))
     jobs.append(Job("h_c02::copy_then_meld", (12 if tier != "quick" else 4,), dict(S2), budget_s=3000, validate=30))
+    # half-copied pack seen by one refresh, complete at the next (job shared with C10)
+    jobs.append(Job("h_c10::repaired_damage", (), dict(S2), budget_s=3000, validate=4))
     return dict(jobs=jobs, bounds={"concurrent creations": "both replicas submit one of k documents with equal element contents, so that identical revisions occur in two different blocks",
                                    "tree level": TREE_BOUNDS,
                                    "melda level [k orders, operations]": [list(c) for c in conv],
@@ -305,10 +310,11 @@ def c10(tier):
             Job("h_c10::damaged_item", (), dict(S2), budget_s=3000, validate=40),
             Job("h_c10::damaged_merge", (), dict(S2), budget_s=3000, validate=16),
             Job("h_c10::live_damage", (), dict(S2), budget_s=3000, validate=3),
-            Job("h_c10::live_read_damage", (), dict(S2), budget_s=3000, validate=20)]
+            Job("h_c10::live_read_damage", (), dict(S2), budget_s=3000, validate=20),
+            Job("h_c10::repaired_damage", (), dict(S2), budget_s=3000, validate=4)]
     return dict(jobs=jobs, bounds={"history": "one replica, two commits (2 blocks + 2 packs)",
                                    "junk": "names <digits{1..11}>-<word{1,2}>.delta, <word{1..3}>.delta/.pack, revision-like names; content <= 2 symbolic bytes",
-                                   "re-read": "every byte position of the first pack replaced by any other byte after a live replica (object cache capacity 1) has read all objects; every object read again", "damage": "any one of the 4 items removed, emptied, truncated by one byte or to half, or one byte (first/middle/last) replaced by any different byte"},
+                                   "repaired": "a pack first seen truncated / with one wrong byte (with or without its block), complete at a later refresh: live replica = reopened replica = full state", "re-read": "every byte position of the first pack replaced by any other byte after a live replica (object cache capacity 1) has read all objects; every object read again", "damage": "any one of the 4 items removed, emptied, truncated by one byte or to half, or one byte (first/middle/last) replaced by any different byte"},
                 assumptions=S2_ASSUME + ["hash collisions are assumed away (injective digest model)", "single fault per run"],
                 note="melda.rs reload / fetch_raw_delta / load_raw_delta / check_delta, datastorage.rs try_load_pack / read_raw_value from MIR")
 
